@@ -115,6 +115,9 @@ func (p Pair) text() string {
 	s := fmt.Sprintf("  value  %s\n  type   %s\n  class  %s", show(p.V.V), p.T.Src(), p.Class)
 	if strings.HasPrefix(p.Class, "near:") {
 		s += "\n  defect at " + pathText(p.Path)
+		if !p.Sole {
+			s += " (not the only deviation)"
+		}
 	}
 	return s
 }
@@ -218,7 +221,7 @@ func checkAPI(c APICase) *pk.Failure {
 	if !strings.Contains(r.Msg, "Incompatible") && !strings.Contains(strings.ToLower(r.Msg), "cast") {
 		pk.Class("doubt:refusal-wording")
 	}
-	if strings.HasPrefix(c.Class, "near:") {
+	if strings.HasPrefix(c.Class, "near:") && c.Sole {
 		ok, what, complete := pathNamed(r.Msg, c.Path)
 		if !ok {
 			return pk.Failf(sub, c.Lib+":path-missing:"+what, "%s\n  refused, but the message does not name the offending %s %s:\n  %s", head, what, pathText(c.Path), r.Msg)
@@ -420,7 +423,7 @@ func checkProg(c ProgCase) *pk.Failure {
 		if oc.Class != "ok" || !strings.HasSuffix(out, "\nAFTER\n") || strings.Contains(out, "FINISHED\n") {
 			return pk.Failf(sub, c.Backend+":refused-then-failed:"+ocText, "%s\n  refused, but execution did not continue normally after the catch: output %q, outcome %s %q", head(), out, ocText, oc.Message)
 		}
-		if vd.MustNot && strings.HasPrefix(c.Class, "near:") {
+		if vd.MustNot && strings.HasPrefix(c.Class, "near:") && c.Sole {
 			caught := strings.TrimSuffix(strings.TrimPrefix(out, "REFUSED\n"), "\nAFTER\n")
 			if ok, what, _ := pathNamed(caught, c.Path); !ok {
 				return pk.Failf(sub, c.Backend+":path-missing:"+what, "%s\n  the caught error does not name the offending %s %s:\n  %s", head(), what, pathText(c.Path), caught)
@@ -705,6 +708,11 @@ func TestProg(t *testing.T) {
 		}
 		for _, b := range []string{"vm", "tree"} {
 			pk.Eval()
+			if _, isNull := p.V.V.(hs.NullV); isNull && b == "vm" && (route == "host" || route == "json") && pk.GateOpen("builtin-null-result") {
+				// finding C12-008: a builtin call of static type any that yields null crashes the VM
+				pk.Gate("builtin-null-result")
+				continue
+			}
 			c := ProgCase{Pair: p, Backend: b, Form: form, Route: route}
 			classify(p, judge(p.V.V, p.T, mode{Explicit: form == "as"}), "prog:"+b+":"+form+":"+route)
 			pk.Judge(rt, c, checkProg(c))
@@ -868,7 +876,7 @@ func TestTableNearMiss(t *testing.T) {
 			for _, n := range ns {
 				for _, kind := range nearKinds(n.T) {
 					if nv, path, ok := vg.nearMiss(kind, n); ok {
-						pairs = append(pairs, Pair{V: hs.WV{V: replaceAt(v, n.Path, nv)}, T: typ, Class: "near:" + kind, Path: path})
+						pairs = append(pairs, Pair{V: hs.WV{V: replaceAt(v, n.Path, nv)}, T: typ, Class: "near:" + kind, Path: path, Sole: true})
 					}
 				}
 				for _, kind := range convKinds(n.T) {
